@@ -20,6 +20,65 @@ const hotPkg = "pkg/hotreload"
 const hotPath = modPath + "/pkg/hotreload"
 
 func runC19(c *Ctx) {
+	c.rule("C19-R9", "STALE/ISOL: code that runs while a request is served (the route-handler closures built in cmd/glyph) reads no package-level variable that route setup assigns on every (re)load: such a variable holds the state of the module that was loaded last - including one whose reload was then rejected - not of the version the running server was built from")
+	{
+		// globals assigned outside init in cmd/glyph
+		assigned := map[*ssa.Global]*ssa.Function{}
+		for _, fn := range c.srcFuncs(glyphCmd) {
+			if n := topParent(fn).Name(); n == "init" || strings.HasPrefix(n, "init#") || n == "main" {
+				continue
+			}
+			eachInstr(fn, func(_ *ssa.BasicBlock, _ int, ins ssa.Instruction) {
+				if st, ok := ins.(*ssa.Store); ok {
+					if g, ok := st.Addr.(*ssa.Global); ok {
+						assigned[g] = fn
+					}
+				}
+			})
+		}
+		// request-time closures: anonymous functions of the handler constructors whose signature is a route handler (ctx) error
+		nCl := 0
+		for _, name := range []string{"createCompiledRouteHandler", "registerInterpretedRoute", "registerCompiledRoute", "createHandler"} {
+			f := c.fn(glyphCmd, name)
+			if f == nil {
+				continue
+			}
+			for _, cl := range innerClosures(f) {
+				nCl++
+				k := 0
+				seen := map[*ssa.Function]bool{}
+				var visit func(g *ssa.Function, d int)
+				visit = func(g *ssa.Function, d int) {
+					if g == nil || seen[g] || d > 2 || len(g.Blocks) == 0 {
+						return
+					}
+					seen[g] = true
+					eachInstr(g, func(_ *ssa.BasicBlock, _ int, ins ssa.Instruction) {
+						switch x := ins.(type) {
+						case *ssa.UnOp:
+							if gl, ok := x.X.(*ssa.Global); ok && x.Op == token.MUL {
+								if setter := assigned[gl]; setter != nil && gl.Pkg.Pkg.Path() == modPath+"/"+glyphCmd {
+									k++
+									c.ob("C19-R9", fnKey(cl)+"#request-time-read-of-reloadable-global:"+gl.Name(), x.Pos(), false, "while serving a request this handler reads package variable "+gl.Name()+", which "+fnKey(setter)+" assigns on every route setup: after a rejected reload the running server works with the rejected module's "+gl.Name())
+								}
+							}
+						case *ssa.Call:
+							if sf := staticFn(x); sf != nil && sf.Pkg != nil && sf.Pkg.Pkg.Path() == modPath+"/"+glyphCmd {
+								visit(sf, d+1)
+							}
+						}
+					})
+				}
+				visit(cl, 0)
+				if k == 0 {
+					c.ob("C19-R9", fnKey(cl)+"#reads-no-reloadable-global", cl.Pos(), true, "")
+				}
+			}
+		}
+		if nCl < 2 {
+			c.undecided("C19-R9: only %d request-time closures found", nCl)
+		}
+	}
 	c.rule("C19-R8", "CLS: the predicate by which setupRoutes tells a semantically invalid program (reject the edit, keep the running version) from an unsupported construct (fall back to the interpreter) classifies wrapped errors too: every func(error) bool of pkg/compiler that decides by the error's concrete type uses errors.As/errors.Is, not a type assertion on the parameter, because the compiler wraps errors of nested constructs with %w")
 	{
 		wraps := 0
@@ -163,6 +222,33 @@ func runC19(c *Ctx) {
 			}
 		})
 		c.ob("C19-R1", "cmd/glyph.hotReloadManager.reload#failure-is-not-fatal", rl.Pos(), !bad, "a failed reload terminates the dev process")
+	}
+
+	// the function that builds the new version recovers: a panic while building (ServeMux pattern conflicts ...) is a failed load
+	if pd := c.mustFn("C19-R1", glyphCmd, "hotReloadManager.prepareDevServer"); pd != nil {
+		recovers := false
+		eachInstr(pd, func(_ *ssa.BasicBlock, _ int, ins ssa.Instruction) {
+			d, ok := ins.(*ssa.Defer)
+			if !ok {
+				return
+			}
+			var body *ssa.Function
+			switch v := d.Call.Value.(type) {
+			case *ssa.MakeClosure:
+				body, _ = v.Fn.(*ssa.Function)
+			case *ssa.Function:
+				body = v
+			}
+			if body == nil {
+				return
+			}
+			eachCall(body, func(call ssa.CallInstruction) {
+				if callName(call) == "builtin.recover" {
+					recovers = true
+				}
+			})
+		})
+		c.ob("C19-R1", fnKey(pd)+"#building-the-new-version-cannot-panic-the-process", pd.Pos(), recovers, "prepareDevServer runs on the reload timer goroutine and registers program-derived patterns on an http.ServeMux (which panics on duplicates / malformed patterns) without a deferred recover of its own: a file that parses but declares two `@ ws /chat` blocks terminates glyph dev instead of leaving the previous version running")
 	}
 
 	c.rule("C19-R2", "MPT: in ReloadManager.handleChanges, from the err!=nil edge of CompileFile neither server.Reload nor server.SetState is reachable and every path to return passes notifyReload with Success:false; Reload's argument is CompileFile's result; SetState is reachable only from Reload's err==nil edge; compile and install happen in one critical section of rm.mu (no Unlock between CompileFile and Reload)")
